@@ -141,16 +141,17 @@ PROPS = {
     ),
     "C09": dict(
         level="exploration",
-        rule="Scripted scenarios (40-60 random steps over 38 operation kinds of interface `Plain`: plain data by value / by reference, &str, slices, tuples, "
+        rule="Scripted scenarios (40-60 random steps over 39 operation kinds of interface `Plain`: plain data by value / by reference, &str, slices, tuples, "
              "Option, Result, &'static str, 7-argument mixed call, &dyn Fn, &mut dyn FnMut, Box<dyn Fn> (consumed and kept), returned closures, boxed trait "
-             "objects in both directions, borrowed trait objects, Result<Box<dyn Trait>>, boxed futures polled to completion, nested callbacks, Pin<&mut Self>, "
+             "objects in both directions, borrowed trait objects, Result<Box<dyn Trait>>, boxed futures polled to completion and futures abandoned after one poll, nested callbacks, Pin<&mut Self>, "
              "panics with literal / formatted / String / non-string payloads and a panic raised in a caller-side callback; argument sizes straddling the 64 byte "
              "inline buffer) are run once against the implementation directly (sequential model) and once through AbiConnection::from_boxed_trait. Compared: every "
              "result line, the arguments the implementation recorded, and the creation/drop log of every tracked object (exactly one drop, no use after drop). "
-             "distinct_nontrivial = distinct (operation, result-size class).",
+             "Generated limit interfaces (gen/wide.py): `Wide` with methods of 1, 2, 31, 32, 33, 63 and 64 arguments (references in first, middle and last position) "
+             "and `Many` with 70 methods, driven the same two ways. distinct_nontrivial = distinct (operation, result-size class).",
         runs=dict(quick=[dict(build="release", crate="vabi", shards=4), dict(build="debug", crate="vabi", shards=4), dict(build="miri", crate="vabi", shards=8, timeout=900)],
                   thorough=[dict(build="release", crate="vabi", shards=16), dict(build="debug", crate="vabi", shards=16), dict(build="miri", crate="vabi", shards=16, timeout=3000), dict(build="asan", crate="vabi", shards=8)]),
-        required_counters=dict(quick=dict(results_equal=3000, argument_records_equal=3000, lifetime_logs_clean=100, tracked_objects=1000)),
+        required_counters=dict(quick=dict(results_equal=3000, argument_records_equal=3000, lifetime_logs_clean=100, tracked_objects=1000, wide_scenarios=8)),
     ),
     "C10": dict(
         level="exploration",
